@@ -27,7 +27,8 @@ nature*; the theorems below are nevertheless full-strength statements about the 
   the residual VECTOR is not invariant under a global phase (witness), only `get_cost` is;
 * `C19_argmin`, `C19_sort_stable` — the head of a stable sort by key is the first minimiser;
 * `C19_instantiate_structure`, `C19_set_params_roundtrip` — `set_params` touches nothing but
-  parameter values and `params` reads back what was set;
+  parameter values and `params` reads back what was set; `C19_instantiate_keeps_least` — the two
+  together: after multi-start instantiation the circuit carries a candidate of least cost;
 * `C19_selection_order`, `C19_order_table` — first capable / first named instantiater; the live
   `instantiater_order`, the `is_capable` bodies and the `sorted(...)[0]` expressions (regenerated into
   `Generated/InstOrder.lean` on every run) are what the model assumes.
@@ -187,6 +188,11 @@ theorem C19_residual_cost_unitary {n : Nat} (T U : Mat n n) (hU : IsoM U) (hT : 
 
 example : IsoM (Mat.one 2) := isoM_one 2
 
+/-- The residual vector vanishes exactly when `U = T` — equality, not equality up to a phase. -/
+theorem C19_residual_zero_iff {n : Nat} (T U : Mat n n) (hU : IsoM U) (hT : IsoM T) :
+    sumSq (residuals T U) = 0 ↔ ∀ i j, U i j = T i j :=
+  residuals_zero_iff T U hU hT
+
 /-- The residual VECTOR is not invariant under a global phase: for `T = (1)`, `U = (−1)` the cost
 gap is 0 (`U = −T`) but `Σ residual² = 4`.  (Only `HilbertSchmidtResiduals.get_cost` is
 phase-aware; a least-squares minimiser driving the residuals to 0 reaches `U = T`, hence cost 0.) -/
@@ -254,6 +260,34 @@ theorem C19_set_params_roundtrip (c : Circ.Circ) (hinv : c.Inv) (ps : List Int)
 example : ∃ c : Circ.Circ, c.Inv ∧ numParams c = 4 :=
   ⟨⟨[2, 2], [[⟨4, [7], [1], [2]⟩, ⟨5, [1, 2, 3], [0], [2]⟩]]⟩,
     (Circ.invB_iff _).mp (by decide), by decide⟩
+
+/-- **Multi-start instantiation as a whole** (`instantiateModel` = `params = sorted(params_list,
+key=cost)[0]; circuit.set_params(params)`, the optimiser abstracted to the list of per-start results):
+on a circuit satisfying the invariants, with at least one start and results of the right length, the
+call succeeds, the circuit's parameters afterwards ARE one of the candidates, no candidate is cheaper,
+and nothing but parameter values changed. -/
+theorem C19_instantiate_keeps_least {κ : Type} [LinearOrder κ] (c : Circ.Circ) (hinv : c.Inv)
+    (cands : List (List Int)) (cost : List Int → κ) (hne : cands ≠ [])
+    (hlen : ∀ p ∈ cands, p.length = numParams c) :
+    ∃ c', instantiateModel c cands cost = .ok c' ∧ params c' ∈ cands ∧
+      (∀ q ∈ cands, cost (params c') ≤ cost q) ∧
+      c'.radixes = c.radixes ∧ c'.cycles.map (·.map shape) = c.cycles.map (·.map shape) := by
+  unfold instantiateModel
+  cases hm : multiStart cands cost with
+  | none => exact absurd ((multiStart_none cost cands).mp hm) hne
+  | some p =>
+    obtain ⟨hmin, pre, post, hl, _⟩ := multiStart_spec cost cands p hm
+    have hp : p ∈ cands := by rw [hl]; simp
+    obtain ⟨c', hc', hpar⟩ := C19_set_params_roundtrip c hinv p (hlen p hp)
+    obtain ⟨c'', hc'', hrad, _, hshape⟩ := (C19_instantiate_structure c p).2 (hlen p hp)
+    have : c'' = c' := by rw [hc'] at hc''; cases hc''; rfl
+    subst this
+    exact ⟨c'', hc', hpar ▸ hp, fun q hq => hpar ▸ hmin q hq, hrad, hshape⟩
+
+/-- no start at all: `IndexError` (unreachable through `Circuit.instantiate`: `multistarts ≤ 0` is
+rejected by the start generator) -/
+theorem C19_instantiate_no_start {κ : Type} [LinearOrder κ] (c : Circ.Circ) (cost : List Int → κ) :
+    instantiateModel c [] cost = .error .index := rfl
 
 /-! ## 6. method selection -/
 
